@@ -310,15 +310,13 @@ theorem c16_obligations : Obligations QInv c16scan where
     unfold DState.datagram
     simp only
     split
-    · rename_i p _
-      have hw := workerMessage_frame s p body src now
-      refine ⟨g, ?_, h.frame hw.1⟩
+    · -- completes a pending exchange of the worker: the answer waits for the worker
+      refine ⟨g, ?_, h.frame (wframe_ready s _)⟩
       apply scan_plain
       intro e he
-      simp only [List.cons_append, List.nil_append, List.mem_cons] at he
-      rcases he with rfl | he
-      · exact ⟨rfl, rfl⟩
-      · exact worker_plain e (hw.2 e he)
+      simp only [List.mem_singleton] at he
+      subst he
+      exact ⟨rfl, rfl⟩
     · by_cases ho : s.bootstrappedOnce = true
       · have hg : g = true := h.flag.trans ho
         subst hg
